@@ -4,6 +4,8 @@ package c01
 import (
 	"encoding/json"
 	"fmt"
+	"os"
+	"path/filepath"
 	"sort"
 	"strings"
 	"testing"
@@ -81,6 +83,9 @@ func check(t ev.TB, c Case, labels map[string]bool) {
 		generatorBugs++
 		ev.Inconclusive("generator bug")
 		ev.Note("generator bug: %s", firstLine(rep.GeneratorBug))
+		if d := os.Getenv("VERIF_DUMP_UNUSABLE"); d != "" {
+			os.WriteFile(filepath.Join(d, fmt.Sprintf("unusable-%x.go", ev.Hash(c.Src))), []byte("// "+firstLine(rep.GeneratorBug)+"\n"+c.Src), 0o644)
+		}
 		if ev.WantSample() || true {
 			ev.Add("generator_bugs", 1)
 		}
@@ -120,8 +125,26 @@ func check(t ev.TB, c Case, labels map[string]bool) {
 		case e.Outcome == "unknown-primitive":
 			ev.Label("entry:model-lacks-primitive")
 			ev.Inconclusive("model lacks primitive")
+		case e.Outcome == "long-run-inconclusive":
+			ev.Label("entry:long-go-run-out-of-fuel")
+			ev.Inconclusive("Go run of more than 2000 loop iterations/calls; the model ran out of fuel")
 		default:
 			ev.Label("entry:DISAGREE")
+		}
+		// calibration of tv.SmallRun: interpreter steps per Go step (function entry / loop iteration)
+		if e.Agree && e.GoSteps > 0 {
+			r := e.FuelUsed / int64(e.GoSteps)
+			switch {
+			case r < 100:
+				ev.Label("fuel-per-go-step:<100")
+			case r < 400:
+				ev.Label("fuel-per-go-step:100-399")
+			case r < 1000:
+				ev.Label("fuel-per-go-step:400-999")
+			default:
+				ev.Label("fuel-per-go-step:>=1000")
+				ev.Note("fuel per Go step %d (fuel %d, Go steps %d) in %s", r, e.FuelUsed, e.GoSteps, e.Name)
+			}
 		}
 	}
 	if len(rep.Violations) > 0 {
